@@ -13,6 +13,13 @@ import random
 from common import Report, ToolError, check_action_coverage, log, run_cases, run_tlc, stable_hash, std_main
 
 
+def cond(i, rnd):
+    """the condition of line i: `vcond i`, alone or as the deciding (last executed) command of a list whose other command is
+    scaffolding (markers Z..): the status of a list is that of its last executed command, so the branch taken is the same"""
+    c = "vcond %d" % i
+    return rnd.choice([c, c, c, "vmk Z%d 3 || %s" % (i, c), "vmk Z%d 0 && %s" % (i, c), "vmk Z%d 3 ; %s" % (i, c), "vmk Z%d 0 | %s" % (i, c)])
+
+
 def render(lines, spelling, rnd):
     out = []
     depth = 0
@@ -29,15 +36,15 @@ def render(lines, spelling, rnd):
         elif k == "co":
             t = "continue"
         elif k == "if":
-            t = "if vcond %d" % i + ("; then" if spelling == "semi" else "")
+            t = "if " + cond(i, rnd) + ("; then" if spelling == "semi" else "")
         elif k == "ei":
-            t = "else if vcond %d" % i + ("; then" if spelling == "semi" else "")
+            t = "else if " + cond(i, rnd) + ("; then" if spelling == "semi" else "")
         elif k == "el":
             t = "else"
         elif k == "fi":
             t = "fi"
         elif k == "wh":
-            t = "while vcond %d" % i + ("; do" if spelling == "semi" else "")
+            t = "while " + cond(i, rnd) + ("; do" if spelling == "semi" else "")
         elif k == "fo":
             words = " ".join("w%d" % j for j in range(1, l["n"] + 1))
             # an empty word list is written with and without a blank after `in`
@@ -66,6 +73,8 @@ def got_events(res):
     ev = []
     for r in res.get("log", []):
         if r.get("h") == "mk":
+            if str(r.get("id", "")).startswith("Z"):
+                continue        # scaffolding of a list condition
             a = r.get("argv") or []
             ev.append(("mk", r.get("id"), a[0] if a else ""))
         elif r.get("h") == "cond":
